@@ -235,3 +235,38 @@ example : foldSem (canonFold .div false) 7 2 = some (some 3) := by decide
 example : (AOp.lt).neg = some .ge ∧ AOp.lt ∈ AOp.cmps := by decide
 
 end MirVerif
+
+namespace MirVerif
+
+/-! ## Constant chains: `r1 = r0 ± c1; r2 = r1 ± c2  ⇒  r2 = r0 + (±c1 ± c2)` (gvn_modify; the combining
+expressions and the sign convention of `add_sub_const_insn_p` are pinned texts of `Gen.C01.pinned`) -/
+
+/-- 64-bit chain: the combined constant is `(int64_t) ((uint64_t) val + (uint64_t) val2)`, a subtraction
+entering as the negated constant; when the sum is 0 the result is a plain move -/
+theorem add_chain_combine64 (x c1 c2 : W64) (s1 s2 : Bool) :
+    let v1 := if s1 then -c1 else c1
+    let v2 := if s2 then -c2 else c2
+    (if s2 then (if s1 then x - c1 else x + c1) - c2 else (if s1 then x - c1 else x + c1) + c2) = x + (v1 + v2) ∧
+    (v1 + v2 = 0 → (if s2 then (if s1 then x - c1 else x + c1) - c2 else (if s1 then x - c1 else x + c1) + c2) = x) := by
+  cases s1 <;> cases s2 <;> simp only [ite_true, ite_false, Bool.false_eq_true] <;> constructor <;>
+    first
+    | (intro h; bv_omega)
+    | bv_omega
+
+/-- 32-bit chain: only the low halves matter: the low half of `(x + c1) + c2` computed in 64 bits (or by
+two 32-bit additions) is the low half of `x` plus `(uint32_t) val + (uint32_t) val2`, which an ADDS with the
+combined constant `(int32_t) (...)` adds -/
+theorem add_chain_combine32 (x c1 c2 : W64) :
+    lo32 (x + c1 + c2) = lo32 x + (lo32 c1 + lo32 c2) ∧
+    lo32 x + lo32 c1 + lo32 c2 = lo32 x + (lo32 c1 + lo32 c2) ∧
+    lo32 (sext32 (lo32 c1 + lo32 c2)) = lo32 c1 + lo32 c2 := by
+  refine ⟨?_, ?_, ?_⟩
+  · simp [lo32, BitVec.setWidth_add, BitVec.add_assoc]
+  · simp [BitVec.add_assoc]
+  · simp only [lo32, sext32]
+    generalize BitVec.setWidth 32 c1 + BitVec.setWidth 32 c2 = v
+    ext i hi
+    simp [BitVec.getLsbD_signExtend, hi, BitVec.getLsbD_eq_getElem]
+    omega
+
+end MirVerif
